@@ -251,6 +251,10 @@ func (runInfo *runInfoStruct) runLetsStmt(stmt *ast.LetsStmt) {
 		}
 		if env, ok := runInfo.rv.Interface().(*env.Env); ok && env != nil {
 			rvs[i] = reflect.ValueOf(env.DeepCopy())
+		} else if len(stmt.RHSS) > 1 {
+			// a, b = b, a: every right side value is the value read, also after
+			// one of the other targets was assigned
+			rvs[i] = heldValue(runInfo.rv)
 		} else {
 			rvs[i] = runInfo.rv
 		}
